@@ -100,6 +100,10 @@ func cmdVerify(args []string) {
 			e.RunLemma(l)
 			continue
 		}
+		if f, ok := strLemmas[a]; ok {
+			e.obls = append(e.obls, f(e)...)
+			continue
+		}
 		key := resolveFuncArg(w, a)
 		if key == "" {
 			fatalf("no contract matches %q", a)
